@@ -20,7 +20,7 @@ LEVEL = 'exploration'
 TECHNIQUE = 'bounded-exhaustive strings x rule lists x configurations against a reference encoder; call-history exploration of the cached helper'
 
 SYMS = ['a', 'b', '%', '\\', '\u00e9', 'e\u0301', '\u00f8', '\u20ac', '\u0001', '\u0378', '\U0001d400', ' ']
-PSYMS = ['a', '\u00e9', '\\', '$', '{', '}', '^', ' ', '%', '\\begin', '{a}', '\u00f8', '\\alpha']
+PSYMS = ['a', '\u00e9', '\\', '$', '{', '}', '^', ' ', '%', '\\begin', '{a}', '\u00f8', '\\alpha', 'e\u0301']
 BOUNDS = {'quick': dict(NA=3, NB=2, NP=3, NH=3), 'thorough': dict(NA=4, NB=3, NP=4, NH=4)}
 
 
@@ -49,6 +49,13 @@ def _c2(s, pos):
     return None
 
 
+def _c3(s, pos, u2lobj):
+    # a callable rule that asks for the encoder object
+    if s[pos] == 'b':
+        return (1, '\\bb' if u2lobj is not None else '\\NOOBJ')
+    return None
+
+
 def rule_menu():
     """list of (name, library rule factory(own_protection), reference matcher)"""
     from pylatexenc import latexencode as le
@@ -68,6 +75,8 @@ def rule_menu():
         ('regex-callable', lambda own: le.UnicodeToLatexConversionRule(le.RULE_REGEX, r5, replacement_latex_protection=own), ref.regex_matcher(r5)),
         ('callable-1', lambda own: le.UnicodeToLatexConversionRule(le.RULE_CALLABLE, _c1, replacement_latex_protection=own), _c1),
         ('callable-2', lambda own: le.UnicodeToLatexConversionRule(le.RULE_CALLABLE, _c2, replacement_latex_protection=own), _c2),
+        ('callable-u2lobj', lambda own: le.UnicodeToLatexConversionRule(le.RULE_CALLABLE, _c3, replacement_latex_protection=own),
+         lambda s, pos: _c3(s, pos, True)),
         ('defaults', None, ref.dict_matcher(defaults)),
     ]
 
@@ -147,11 +156,11 @@ def make_encoder(rulespec, cfg, menu):
 
 
 def rule_lists_A():
-    nm = 9
+    nm = 10
     out = [()]
     for i in range(nm):
         for own in OWN3:
-            if i == 8 and own is not None:
+            if i == nm - 1 and own is not None:
                 continue
             out.append(((i, own),))
             for j in range(nm):
@@ -160,7 +169,7 @@ def rule_lists_A():
 
 
 def rule_lists_B(maxlen):
-    variants = [(i, own) for i in range(9) for own in OWN3 if not (i == 8 and own is not None)]
+    variants = [(i, own) for i in range(10) for own in OWN3 if not (i == 9 and own is not None)]
     out = []
     for k in range(0, maxlen + 1):
         for combo in itertools.product(variants, repeat=k):
@@ -179,13 +188,13 @@ def plan(tier):
         shards=shards,
         bounds=dict(b, symbols=[repr(x) for x in SYMS], rule_kinds=[m[0] for m in rule_menu()], configs=len(CONFIGS),
                     lists_A=len(la), lists_B=len(lb)),
-        rule=('(A) every ordered list of <= 2 rules from an 9-entry menu (2 dicts, 4 regex rules incl. group expansion, callable replacement and left-context patterns, '
-              '2 callables consuming 1 / 2 characters, the built-in defaults; first rule with own protection in {None, none, braces-all}) x all 72 '
+        rule=('(A) every ordered list of <= 2 rules from a 10-entry menu (2 dicts, 4 regex rules incl. group expansion, callable replacement and left-context patterns, '
+              '3 callables (consuming 1 / 2 characters, one asking for the encoder object), the built-in defaults; first rule with own protection in {None, none, braces-all}) x all 72 '
               'configurations (6 protections incl. callable x 6 unknown-character policies incl. callable x non_ascii_only) x all strings of length '
               '<= NA over 12 symbols (ASCII, %%, backslash, precomposed and combining accents, symbols with rules, control, unassigned, astral); '
               '(B) every ordered list of <= 3 rule variants x default configuration x strings of length <= NB; every code point of both built-in '
-              'tables alone and between neighbours; homomorphism on all splits; partial encoder on strings of length <= NP over 13 LaTeX lexemes; '
-              'helper call sequences of length <= NH over 8 option tuples; all strings of length <= 3 over 9 symbols whose canonical composition involves no combining mark (Hangul jamo, Indic vowel parts, singleton) x 72 configurations; caller-mutation histories of length <= 3 on the built-in rule lists handed out by the module.  non-trivial = encodes whose output differs from the NFC input.'),
+              'tables alone and between neighbours; homomorphism on all splits; partial encoder on strings of length <= NP over 14 LaTeX lexemes; '
+              'helper call sequences of length <= NH over 8 option tuples; all strings of length <= 3 over 12 symbols (canonical composition without combining mark: Hangul jamo, Indic vowel parts, singleton; astral characters without a rule) x 72 configurations; caller-mutation histories of length <= 3 on the built-in rule lists handed out by the module.  non-trivial = encodes whose output differs from the NFC input.'),
         assumptions=['the reference encoder mc/ref/encoder.py transcribes the documented semantics; the built-in tables are data shared with it',
                      'rules that can match the empty string are excluded (contract: number of characters consumed)'],
     )
@@ -313,7 +322,7 @@ HELPER_OPTS = [dict(), dict(non_ascii_only=True), dict(replacement_latex_protect
                dict(unknown_char_policy='replace'), dict(replacement_latex_protection='none', unknown_char_policy='unihex'),
                dict(non_ascii_only=True, replacement_latex_protection='braces-after-macro'),
                dict(non_ascii_only=False, unknown_char_warning=True), dict(non_ascii_only=True, unknown_char_warning=False)]
-NFC_SYMS = ['a', '\u1100', '\u1161', '\u11a8', '\u09c7', '\u09be', '\u212b', '\u0301', 'e']
+NFC_SYMS = ['a', '\u1100', '\u1161', '\u11a8', '\u09c7', '\u09be', '\u212b', '\u0301', 'e', '\U0001f600', '\U00020000', '\U0010ffff']
 ALIAS_STRS = ['a\u00e9%\u0378', '\u00f8b\\', 'ab', '\u20ac~']
 
 
